@@ -28,6 +28,12 @@ CLAIMS = {
          "exhaustive enumeration of timing sequences on the real code under a virtual clock", "Trusted base: virtual clock shim; a failure exactly Period old is accepted either way; gap alphabet as listed."),
  "C10": ("model_checking", "Fault-point enumeration on the real node: for supervision trees (each supervisor type, nested supervisors, pool, application {supervisor, worker}, node {tree, free process}) one Kill of every member is placed at every scheduling point (delay bound 1; 2 in the thorough tier) of the steady state, an ongoing restart, an ongoing shutdown, ApplicationStop/StopForce and Node.Stop; start-up failures of every member; orphan oracle at quiescence and liveness snapshot at the moment a graceful stop returns.", "3 C10",
          "fault-point enumeration = stateless schedule enumeration with a low-priority one-operation fault thread", SCHED_NOTE),
+ "C12": ("model_checking", "Two real nodes joined by in-memory links after the real handshake. Input enumeration: 18 payload sizes (0..70000, around every buffer doubling and the compression threshold) x {none,gzip,zlib,lzw} x {pid,name,alias} x {send,call,important}; peer max-message-size boundaries; EVERY cut of one and of two back-to-back frames into <=3 reads. Schedule enumeration: two concurrent senders over 1-2 pooled links, important sends with remote refusal reasons and traffic in the other direction, and a receive-queue kernel (recorded frames trickling into a stand-alone receiving connection, preemption bound 2). Oracle: received exactly once by the addressee with the true sender and an equal payload, own reply, truthful important result.", "3 C12",
+         "exhaustive input/segmentation enumeration + stateless schedule enumeration on two real nodes", SCHED_NOTE + " The two nodes run in one process and are joined by in-memory links (vconn) whose reads, holds, cuts and read sizes the harness owns; the real handshake, protocol, flusher and network table code run unmodified; real TCP behaviour (kernel buffering, RST vs FIN) is not modelled."),
+ "C13": ("model_checking", "Two real nodes, pool of 1-2 links with a harness-held (slow) link in every position, sender and receiver process ids covering the residue classes 0 and non-0 of id%255 (1001, 1019, 1020), compressed/uncompressed mixes, a link joining between two sends, and the receive-queue kernel; every schedule within the delay bound; oracle: sequence numbers of one pair arrive in order.", "3 C13",
+         "stateless schedule enumeration (delay bounding; preemption bounding for the kernel) on two real nodes", SCHED_NOTE + " The two nodes run in one process and are joined by in-memory links (vconn) whose reads, holds, cuts and read sizes the harness owns; the real handshake, protocol, flusher and network table code run unmodified; real TCP behaviour (kernel buffering, RST vs FIN) is not modelled."),
+ "C14": ("model_checking", "Fault-point enumeration on two real nodes: a connection cut (or the remote target's termination) is placed at every scheduling point of a link/monitor request on a remote pid, name, alias, event and node, of calls, important and plain sends in flight, and of an established relation whose target is killed concurrently; one sequential history restarts the peer under the same name with a later creation and drives every operation with identifiers of the old incarnation against processes that reuse the same ids. Oracle: acknowledged relation => exactly one notification with the right reason, refused => none, nobody stays blocked, old identifiers refused and never delivered.", "3 C14",
+         "fault-point enumeration = stateless schedule enumeration with a low-priority one-operation fault thread on two real nodes", SCHED_NOTE + " The two nodes run in one process and are joined by in-memory links (vconn) whose reads, holds, cuts and read sizes the harness owns; the real handshake, protocol, flusher and network table code run unmodified; real TCP behaviour (kernel buffering, RST vs FIN) is not modelled."),
  "C17": ("model_checking", "Histories: BFS over start/stop/stop-force/unload/member-exit sequences for each mode against a lifecycle model (state, live members, callback counts, reasons) on the real node; all dependency graphs x failing member positions; races: every schedule within the bound of concurrent member deaths, stop vs crash, start vs start, stop vs stop, member death during start-up.", "3 C17",
          "explicit-state BFS over operation histories + stateless schedule enumeration on the real node", SCHED_NOTE),
  "C18": ("model_checking", "Histories: BFS over publish/forged publish/link/unlink/monitor/demonitor/unregister/register/owner kill/subscriber exit sequences for buffer sizes 0..2 with and without notifications against a subscription model (publications handled, buffer returned by subscribe, exit/down on event end, EventStart/EventStop). Races: every schedule within the bound of subscribe vs publish, two token holders publishing, register vs zero-token publish.", "3 C18",
